@@ -16,8 +16,9 @@ PARALLEL = True
 RULE = ('request paths assembled from traversal-significant pieces (.., ., %2e%2e, %2f, \\, %5c, %00, //, absolute '
         'paths, overlong UTF-8, double encoding, names of files outside the root) mixed with names inside the root, '
         'Unicode look-alikes of . .. / \\ and of existing names (computed from unicodedata: every character some normal form '
-        'maps onto them, ignorable characters, fullwidth / other-case names), raw / percent-encoded once / twice, x 4 mountings (add_static_view route, catch-all *subpath route, plain '
-        'view on PATH_INFO, plain view with a given request.subpath) x filesystem and package-relative roots x '
+        'maps onto them, ignorable characters, fullwidth / other-case names), raw / percent-encoded once / twice, x 6 mountings (add_static_view route, catch-all *subpath route, plain '
+        'view on PATH_INFO, plain view with a given request.subpath, a route with a {subpath:.*} placeholder whose matched STRING the traverser splits, '
+        'a view named "static" found by traversal -- also as /@@static/..) x filesystem and package-relative roots x optional SCRIPT_NAME x '
         'Accept-Encoding values x content_encodings (package roots given as pkg:dir, as a relative dir with package_name=, and as a '
         'relative dir resolved against the package of the module that creates the view / the Configurator), plus all 6^4 combinations of six core pieces; non-trivial = the '
         'static view itself was reached and either answered 200/301 or the path contains a traversal-significant '
@@ -32,11 +33,13 @@ ASSUMPTIONS = [
     'no conditional request headers (If-*, Range); asset overrides not configured',
 ]
 TRUSTED = [
-    'harness/c16/translate.py: Python ast -> Gallina translator for the seven core functions of static.py (control-flow '
+    'harness/c16/translate.py: Python ast -> Gallina translator for nine functions of static.py (the seven core functions, '
+    'add_slash_redirect, _compile_content_encodings; control-flow '
     'rules + primitive table, fail closed; stored fallback translation gen_fallback.json when it refuses)',
     'hand-written reference model coq/Model/C16.v (the generated program is proved equal to it); for what is not translated '
-    '-- FileResponse, traversal_path_info/split_path_info/decode_path_info, the *subpath route remainder, __init__, '
-    'add_slash_redirect, _compile_content_encodings, _add_vary -- it is tied by shape pins and regenerated constants',
+    '-- FileResponse, traversal_path_info/split_path_info/decode_path_info, the *subpath / {subpath:.*} route regex, '
+    'ResourceTreeTraverser.__call__ (which splitter it applies to a str subpath and the @@ view selector are regenerated '
+    'facts; the rest is a masked pin), __init__, _add_vary -- it is tied by shape pins and regenerated constants',
     'coq/Lib/C16Posix.v model of posixpath.join/normpath and of lexical path resolution by the OS; Lib/Utf8 (strict '
     'UTF-8), Lib/Percent (unquote, quote) -- validated by this correspondence run, not verified against CPython',
     'oracle inputs taken from the real libraries per case: directory listing (os.walk/os.stat), mimetypes.encodings_map, '
@@ -46,15 +49,18 @@ TRUSTED = [
 ]
 TECHNIQUE = ('Coq proof on a hand-written Gallina reference model (path pipeline + abstract file system with an access '
              'trace); the core of static.py (_secure_path, _contains_invalid_element_char, static_view.get_resource_name / '
-             'find_resource_path / get_possible_files / find_best_match / __call__) is re-translated from the source on every '
+             'find_resource_path / get_possible_files / find_best_match / __call__ / add_slash_redirect, '
+             '_compile_content_encodings) is re-translated from the source on every '
              'run by a fail-closed Python-ast -> Gallina translator (control flow mechanically, leaves through a primitive '
              'table) and proved equal to the model; regenerated constants; extracted-model differential correspondence on a '
              'real directory tree, including the exact sequence of os.stat/open calls')
-LEVEL_TEXT = ('Machine-checked theorems for every request sequence, every mounting, both kinds of root, every file system, any '
+LEVEL_TEXT = ('Machine-checked theorems for every request sequence, every mounting (six: the four of round 1-4, a route with a '
+              '{subpath:.*} placeholder, a named view reached by traversal), both kinds of root, every file system, any '
               'number of view instances: _secure_path accepts exactly tuples of plain NUL-free names; every path handed to '
               'the file system is the root or lies component-wise beneath it; every response conforms to the declarative '
               'specification (designated file, index, add-slash redirect with its Location, 404, smallest acceptable variant '
-              'labelled with its encoding); the filemap never changes an answer.  The seven core functions of static.py are '
+              'labelled with its encoding); every 200 answer after ANY history of the instance is a smallest variant acceptable '
+              'to the client of that request (C16_variant_acceptable_history); the filemap never changes an answer.  Nine functions of static.py are '
               'translated from the current source on every run and proved equal to the reference model (C16_gen_*_is_model), '
               'and the property theorems are restated about the regenerated program (C16_gen_call_contained / _conform / '
               '_transparent, C16_gen_secure_path_spec).  The remaining tie is regenerated constants, shape pins of the '
@@ -63,10 +69,11 @@ LEVEL_TEXT = ('Machine-checked theorems for every request sequence, every mounti
               'CPython on all 2-byte, (nearly) all 3-byte and structured 4-byte sequences.')
 LEVEL_NOTE = ('Trusted: Coq kernel; the translator (harness/c16/translate.py: its control-flow rules and its primitive table of '
               'about 40 entries, each a claim about Python / os.path / pkg_resources / WebOb / Pyramid semantics); the '
-              'hand-written model of what is not translated (router, traversal, FileResponse, __init__, add_slash_redirect, '
-              '_compile_content_encodings, _add_vary -- shape-pinned); posixpath/UTF-8/percent models; Python harness and '
-              'oracles.  Which function static_view applies to request.path_info, the route remainder regex and the '
-              'per-instance filemap are regenerated facts; C16_facts_ok / C16_filemap_per_instance require the repaired values.')
+              'hand-written model of what is not translated (router, traversal, FileResponse, __init__, _add_vary -- '
+              'shape-pinned); posixpath/UTF-8/percent models; Python harness and '
+              'oracles.  Which function static_view applies to request.path_info, which function the traverser applies to a '
+              '{subpath} string, the view selector, the route remainder regex and the per-instance filemap are regenerated '
+              'facts; C16_facts_ok / C16_traverser_facts_ok / C16_filemap_per_instance require the repaired values.')
 ALLOWED_AXIOMS = ()
 
 BASE = os.path.join(B.BUILD, 'C16', 'world')
@@ -137,10 +144,15 @@ def make_config(**kw):
     return Configurator(**kw)
 '''
 SCRIPTS_FILES = {'pserve.py': 9, 'common.py': 6, 'index.html': 5, 'notes.txt': 4}
-MOUNTS = ['route', 'catchall', 'view', 'subpath']
+MOUNTS = ['route', 'catchall', 'view', 'subpath', 'placeholder', 'traversal']
+ROUTED = ('route', 'catchall', 'placeholder')          # mountings whose path goes through a compiled route regex
 ENC_SETS = [[], ['gzip'], ['gzip', 'br'], ['br', 'gzip'], ['gzip', 'compress', 'bzip2', 'xz', 'br']]
 AE_VALUES = [None, '', 'gzip', 'br', 'gzip, br', 'br, gzip;q=0.5', 'gzip;q=0', '*', '*;q=0', 'identity', 'identity;q=0',
              'identity;q=0, gzip', 'compress, gzip', 'deflate', 'gzip;;q=1', 'GZIP', 'x-gzip']
+
+# SCRIPT_NAME values (WSGI: bytes-as-latin-1, not percent-encoded): request.path_url -- the add-slash redirect and the
+# index-or-redirect decision -- is application_url + quoted PATH_INFO, while routing / traversal see PATH_INFO only
+SCRIPTS = ['/app', '/app', '/a b', '/app/v1', '/static', '/\xc3\xa9', '/x%2fy']
 
 _state = {}
 
@@ -251,6 +263,16 @@ def facts(src):
         summary[k] = got
         if got != w:
             problems.append('shape pin %s changed (%s -> %s): the hand-written model follows the previous text' % (k, w, got))
+    # blind pins (locals blanked) in which, additionally, one name that is a value fact is masked
+    with open(os.path.join(HERE, 'pins_blind_masked.json')) as f:
+        for rel, quals in json.load(f).items():
+            for q, w in quals.items():
+                k = '%s:%s[blind,masked]' % (rel, q)
+                got = shapes.get(k)
+                summary[k] = got
+                if got != w:
+                    problems.append('shape pin (locals blanked, fact masked) %s changed (%s -> %s): the hand-written model '
+                                    'follows the previous text' % (k, w, got))
     summary.update(c16facts.check_blind(src, os.path.join(HERE, 'pins_blind.json'), problems))
     summary['response._BLOCK_SIZE'] = c16facts.block_size(src, problems)
     summary.update({k: (v if not isinstance(v, list) else list(v)) for k, v in vals.items()})
@@ -285,7 +307,15 @@ PREFIXES = {'route': ['/static/'] * 12 + ['/static', '/', '/other/', '/static//'
                                          '/%73tatic/', '/static%2f', '', 'static/'],
             'catchall': ['/'] * 8 + ['', '//', 'x'],
             'view': ['/'] * 8 + ['', '//', 'x/'],
-            'subpath': ['/', '/d/', '/d', '']}
+            'subpath': ['/', '/d/', '/d', ''],
+            # add_route('/static/{subpath:.*}') + static_view(use_subpath=True): the traverser splits the matched STRING
+            'placeholder': ['/static/'] * 12 + ['/static', '/', '/other/', '/static//', '//static/', '/static/../static/',
+                                                '/Static/', '/%73tatic/', '/static%2f', '', 'static/'],
+            # add_view(static_view(use_subpath=True), name='static'), no route: traversal finds the view name
+            'traversal': ['/static/'] * 10 + ['/@@static/'] * 3 + ['/static', '/', '/other/', '/static//', '//static/',
+                                                                  '/static/../static/', '/other/../static/', '/./static/',
+                                                                  '/Static/', '/%73tatic/', '/%40%40static/', '/@static/',
+                                                                  '/@@@static/', '/@@/static/', '/static%2f', '', 'static/']}
 
 
 def _abs_pieces():
@@ -298,8 +328,10 @@ REAL_PATHS = ['', 'index.html', 'file.txt', 'file.txt', 'big.css', 'same.js', 'o
               'sub/x.css', 'sub/x.css', 'sub/deep', 'sub/deep/', 'sub/deep/z.js', 'noindex', 'noindex/', 'noindex/only.txt',
               'dirindex/', 'vardir.txt', 'home.htm', 'sub/home.htm', 'file.txt.gz', 'x.css', 'deep/z.js', 'index.html/',
               'docs.v1', 'docs.v1/', 'docs.v1/a.txt', 'docs.v1/img.d', 'docs.v1/img.d/', 'docs.v1/img.d/x.png',
-              'dirindex/index.html', 'vardir.txt.gz', 'pserve.py', 'common.py', 'notes.txt']
-MOUNT_PREFIX = {'route': '/static/', 'catchall': '/', 'view': '/', 'subpath': '/'}
+              'dirindex/index.html', 'vardir.txt.gz', 'pserve.py', 'common.py', 'notes.txt',
+              '%c3%83%c2%a9.txt', '%c3%a9.txt', '%e2%82%ac.txt', 'sub/%c3%a9.txt']
+MOUNT_PREFIX = {'route': '/static/', 'catchall': '/', 'view': '/', 'subpath': '/', 'placeholder': '/static/',
+                'traversal': '/static/'}
 
 
 # ---- Unicode look-alikes: text that is NOT '.', '..', '/', '\\' or an existing name, but becomes one under a Unicode
@@ -433,7 +465,8 @@ SUB_ELEMS = ['..', '.', '', 'a/b', '../sentinel.txt', 'sub/x.css', '/etc/passwd'
 
 
 def gen_case(rng):
-    mount = rng.choice(['route', 'route', 'route', 'catchall', 'catchall', 'view', 'view', 'subpath', 'subpath'])
+    mount = rng.choice(['route', 'route', 'route', 'catchall', 'catchall', 'view', 'view', 'subpath', 'subpath',
+                        'placeholder', 'placeholder', 'traversal', 'traversal'])
     root = rng.choice(['fs'] * 6 + ['pkg'] * 6 + [k for k in ROOTS if k not in ('fs-missing', 'fs-file')] * 2 + list(ROOTS))
     case = {'mount': mount, 'root': root, 'path': _gen_path(rng, mount), 'subpath': [], 'qs': rng.choice(['', '', '', 'a=1', 'x=%2f&y']),
             'ae': rng.choice(AE_VALUES) if rng.random() < 0.6 else None,
@@ -451,6 +484,8 @@ def gen_case(rng):
             case['path'] = '/d/' if rel.endswith('/') else '/d'
         else:
             case['path'] = MOUNT_PREFIX[mount] + rel
+    if rng.random() < 0.15:                       # the application is mounted below a SCRIPT_NAME (deployment-level)
+        case['script'] = rng.choice(SCRIPTS)
     case['pre'] = []
     if rng.random() < 0.35:                       # earlier requests served by the same view instance (filemap)
         for _ in range(rng.choice([1, 1, 2])):
@@ -574,6 +609,13 @@ def generate(rng, tier, n):
         d['root'] = 'pkg' if i % 3 == 0 else 'fs'
         d['path'] = c['path'][len('/static'):]
         yield d
+    for i, c in enumerate(core[3::7]):
+        d = dict(c)
+        d['mount'] = ['placeholder', 'traversal'][i % 2]
+        d['root'] = 'pkg' if i % 3 == 0 else 'fs'
+        if i % 5 == 0 and d['mount'] == 'traversal':
+            d['path'] = '/@@' + c['path'][1:]
+        yield d
     for _ in range(max(0, n - len(core) - len(core[::7]))):
         yield gen_case(rng)
 
@@ -608,6 +650,10 @@ def valid(case):
                 and all(isinstance(b, int) and 0 <= b < 256 for b in case['prefix'])
         if case['mount'] not in MOUNTS or case['root'] not in ROOTS:
             return False
+        sc = case.get('script', '')
+        if not isinstance(sc, str) or (sc and (not sc.startswith('/') or sc.endswith('/'))) \
+                or any(ord(ch) > 255 or ord(ch) < 32 for ch in sc):
+            return False
         if not isinstance(case['pre'], list) or len(case['pre']) > 4:
             return False
         insts = case.get('insts', [])
@@ -634,9 +680,9 @@ def valid(case):
 
 
 # ------------------------------------------------------------------ oracles and wire
-def _environ(case):
+def _environ(case, script=''):
     pi = _pi(case)       # the WSGI server's job
-    env = {'REQUEST_METHOD': 'GET', 'SCRIPT_NAME': '', 'PATH_INFO': pi, 'QUERY_STRING': case['qs'],
+    env = {'REQUEST_METHOD': 'GET', 'SCRIPT_NAME': script, 'PATH_INFO': pi, 'QUERY_STRING': case['qs'],
            'SERVER_NAME': 'localhost', 'SERVER_PORT': '80', 'SERVER_PROTOCOL': 'HTTP/1.1',
            'wsgi.url_scheme': 'http', 'wsgi.version': (1, 0), 'wsgi.input': io.BytesIO(b''),
            'wsgi.errors': io.StringIO(), 'wsgi.multithread': False, 'wsgi.multiprocess': False, 'wsgi.run_once': False}
@@ -661,6 +707,16 @@ def _ae_oracle(ae):
         acc = _state['Request'](env).accept_encoding
         _state['ae'][ae] = (bool(acc), [e for e in ALL_ENCODINGS if acc.acceptable_offers([e])])
     return _state['ae'][ae]
+
+
+def _app_url(script):
+    """request.application_url (host_url + quoted SCRIPT_NAME): WebOb is the oracle."""
+    key = ('app_url', script)
+    if key not in _state['ae']:
+        env = {'REQUEST_METHOD': 'GET', 'SCRIPT_NAME': script, 'PATH_INFO': '/', 'SERVER_NAME': 'localhost',
+               'SERVER_PORT': '80', 'wsgi.url_scheme': 'http'}
+        _state['ae'][key] = _state['Request'](env).application_url
+    return _state['ae'][key]
 
 
 def _root_pkg(root):
@@ -707,7 +763,8 @@ def to_wire(case):
     for ic in _insts(case):
         is_pkg, docroot = _docroot(ic)
         cfgs.append([MOUNTS.index(ic['mount']), 'static', is_pkg, docroot, _state['modpath'][_root_pkg(ic['root'])],
-                     ic['index'], list(ic['encs']), _state['encmap'], 'http://localhost', _state['safe'], ic['reload']])
+                     ic['index'], list(ic['encs']), _state['encmap'], _app_url(case.get('script', '')), _state['safe'],
+                     ic['reload']])
     reqs = []
     for r in _requests(case):
         truthy, ok = _ae_oracle(r['ae'])
@@ -783,6 +840,18 @@ def _get_app(case):
         config.add_route('catchall', '/*subpath')
         config.add_view(make_view(spec, use_subpath=True, **kw), route_name='catchall')
         app = ('wsgi', config.make_wsgi_app())
+    elif case['mount'] == 'placeholder':
+        # the subpath arrives in the matchdict as a STRING ('{subpath}' placeholder with the regex '.*')
+        config = Configurator()
+        config.add_route('ph', '/static/{subpath:.*}')
+        config.add_view(make_view(spec, use_subpath=True, **kw), route_name='ph')
+        app = ('wsgi', config.make_wsgi_app())
+    elif case['mount'] == 'traversal':
+        # no route at all: the default root factory's resource has no children, traversal stops at the first
+        # segment, which is the view name; the remaining segments are request.subpath
+        config = Configurator()
+        config.add_view(make_view(spec, use_subpath=True, **kw), name='static')
+        app = ('wsgi', config.make_wsgi_app())
     elif case['mount'] == 'view':
         app = ('view', make_view(spec, use_subpath=False, **kw))
     else:
@@ -829,8 +898,8 @@ def _call_wsgi(app, env):
     return got['status'], got['headers'], body
 
 
-def _run_one(kind, app, mount, r):
-    env = _environ(r)
+def _run_one(kind, app, mount, r, script=''):
+    env = _environ(r, script)
     with _Trace() as tr:
         try:
             if kind == 'wsgi':
@@ -876,7 +945,7 @@ def run_impl(case):
     outs = []
     for r in _requests(case):
         kind, app = apps[r.get('inst', 0)]
-        outs.append(_run_one(kind, app, case['mount'], r))
+        outs.append(_run_one(kind, app, case['mount'], r, case.get('script', '')))
     try:
         sec = _state['secure'](tuple(case['subpath']))
         sec = [] if sec is None else [sec]
@@ -995,7 +1064,7 @@ def classify(case, obs, spec):
         if case['mount'] == 'view' and _nonascii(r) and _state_facts.get('view_decodes_again') and (
                 resp[0] in (200, 404, 301) or resp in ([0, 1], [0, 3])):
             found.add('C16-plain-view-decodes-twice')
-        elif case['mount'] in ('route', 'catchall') and '\n' in _pi(r) and not (
+        elif case['mount'] in ROUTED and '\n' in _pi(r) and not (
                 _state_facts.get('route_remainder_dotall', True) and _state_facts.get('route_anchor_abs', True)):
             found.add('C16-route-remainder-newline')
         else:
@@ -1067,6 +1136,8 @@ def kinds(case, obs):
                        ('unicode-lookalike', _lookalike(case))):
         if pred:
             k.append('piece-' + name)
+    if case.get('script'):
+        k.append('script-name')
     if case['ae'] is not None:
         k.append('ae-present')
     if case['encs']:
@@ -1128,10 +1199,21 @@ def targeted(broken, disagreements, rng):
                 else:
                     d.update(mount=mount, root=root, path=MOUNT_PREFIX[mount] + _pct(j))
                 out.append(d)
-    for mount, pre in (('route', '/static/'), ('catchall', '/')):
+    for mount, pre in (('route', '/static/'), ('catchall', '/'), ('placeholder', '/static/'), ('traversal', '/static/')):
         for tail in ('file.txt%0a', 'file.txt\n', 'sub/%0a', 'sub%0a', '%0afile.txt', 'sub/x.css%0a', 'index.html%0a', '%0a',
                      'sub%0a/x.css', 'nl%0a', 'nl%0a%0a'):
             d = dict(base)
             d.update(mount=mount, path=pre + tail)
             out.append(d)
+    # non-ASCII names (and names that are the UTF-8-read-as-latin-1 form of another name) in every mounting and root kind:
+    # a second decoding anywhere between the server and the view serves the wrong file or raises
+    for mount in MOUNTS:
+        for root in ('fs', 'pkg'):
+            for name in ('é.txt', 'Ã©.txt', '€.txt', 'nothere-Ã©.txt', 'sub/é.txt', 'sub/Ã©'):
+                d = dict(base)
+                if mount == 'subpath':
+                    d.update(mount=mount, root=root, subpath=name.split('/'))
+                else:
+                    d.update(mount=mount, root=root, path=MOUNT_PREFIX[mount] + _pct(name))
+                out.append(d)
     return out
